@@ -58,7 +58,6 @@ func renderApp(a App) obj {
 		}
 		handle = append(handle, obj{"handler": "static_response", "body": "T" + strconv.Itoa(a.Tag)})
 		o := obj{
-			"http_port": 9,
 			"servers": obj{"s": obj{
 				"listen":            listen,
 				"listener_wrappers": []any{obj{"wrapper": "verif_probe"}},
